@@ -12,7 +12,7 @@ CONFIG = {'gen': ['ConstsC14'],
          "of every length 0..26, version, DN-with-binary format/parse/round trip with ':' ',' '=' non-ASCII and invalid UTF-8 and damaged "
          'size/hex parts; distinct = distinct input line; non-trivial = implementation output is a non-empty value In half of the '
          'single-bit corruption cases the parser object has already parsed the genuine blob and computed/checked its hash before it parses '
-         'the corrupted one. After ToBytes the blob is held while another credential of the same shape is built and serialised; it must still read as returned. (Engine-wide: every byte slice printed through okHex is held across later ops and must not change.)',
+         'the corrupted one. After ToBytes the blob is held while another credential of the same shape is built and serialised; it must still read as returned. (Engine-wide: every byte slice printed through okHex is held across later ops and must not change.) The serialised blob is also parsed through KeyCredential.ParseDNWithBinary and must give the same fields and re-serialisation. DN alphabets include format verbs (%, %s, %%).',
  'assumptions': ['SHA-256 is an arbitrary function H in every theorem; the round-trip clauses assume only that digests are 32 bytes; '
                  "'tampering detected' is proved as: an accepted alteration exhibits a collision of H, or a message containing its own "
                  'digest',
